@@ -107,9 +107,28 @@ func sizes(r *rand.Rand, big bool, hdr, limit int) (in []int, over int) {
 	return ok, limit - hdr + 1
 }
 
-func recvN(s mangos.Socket, want int, tmo time.Duration) ([]obs, error) {
+// both mangos.Socket and mangos.Context
+type endpoint interface {
+	Send([]byte) error
+	Recv() ([]byte, error)
+	SendMsg(*mangos.Message) error
+	RecvMsg() (*mangos.Message, error)
+	SetOption(string, interface{}) error
+}
+
+// held mode: the []byte convenience calls; the slices Recv returned stay in the application's hands, untouched and
+// uncopied, until the whole flow is over (they are digested only when the flow is written out) -- what the
+// application received must stay what was sent while the library goes on allocating and releasing messages
+func recvN(s endpoint, want int, tmo time.Duration, held bool) ([]obs, error) {
 	var out []obs
 	_ = s.SetOption(mangos.OptionRecvDeadline, tmo)
+	for held && len(out) < want {
+		b, err := s.Recv()
+		if err != nil {
+			return out, err
+		}
+		out = append(out, obs{0, nil, b})
+	}
 	for len(out) < want {
 		m, err := s.RecvMsg()
 		if err != nil {
@@ -125,7 +144,11 @@ func recvN(s mangos.Socket, want int, tmo time.Duration) ([]obs, error) {
 	return out, nil
 }
 
-func sendOne(s mangos.Socket, raw bool, hdr []byte, body []byte) error {
+func sendOne(s endpoint, raw bool, hdr []byte, body []byte, held bool) error {
+	if held {
+		_ = s.SetOption(mangos.OptionSendDeadline, 3*time.Second)
+		return s.Send(body)
+	}
 	m := mangos.NewMessage(len(body))
 	m.Body = append(m.Body, body...)
 	if raw && hdr != nil {
@@ -139,15 +162,29 @@ func sendOne(s mangos.Socket, raw bool, hdr []byte, body []byte) error {
 	return err
 }
 
-func runFlow(tr string, p pat, raw, big bool, limit int, r *rand.Rand) []*flow {
+// held: 0 = message API; 1 = Send/Recv of byte slices on the sockets; 2 = the same on contexts where the protocol has them
+func runFlow(tr string, p pat, raw, big bool, limit int, r *rand.Rand, heldMode int) []*flow {
 	sn, rn := p.snd, p.rcv
 	if raw {
 		sn, rn = "x"+sn, "x"+rn
 	}
-	snd, rcv := wire.New(sn), wire.New(rn)
-	defer snd.Close()
-	defer rcv.Close()
+	sndS, rcvS := wire.New(sn), wire.New(rn)
+	defer sndS.Close()
+	defer rcvS.Close()
+	held := heldMode > 0
+	var snd, rcv endpoint = sndS, rcvS
+	if heldMode == 2 {
+		if c, err := sndS.OpenContext(); err == nil {
+			snd = c
+		}
+		if c, err := rcvS.OpenContext(); err == nil {
+			rcv = c
+		}
+	}
 	fw := &flow{tr: tr, p: p, raw: raw, fwd: true, maxrx: limit}
+	if held {
+		fw.note = fmt.Sprintf("held slices, mode %d", heldMode)
+	}
 	var back *flow
 	if p.twoWay {
 		back = &flow{tr: tr, p: p, raw: raw, fwd: false, maxrx: limit}
@@ -158,19 +195,21 @@ func runFlow(tr string, p pat, raw, big bool, limit int, r *rand.Rand) []*flow {
 		}
 		return []*flow{fw}
 	}
-	_ = rcv.SetOption(mangos.OptionMaxRecvSize, limit)
-	_ = snd.SetOption(mangos.OptionMaxRecvSize, limit)
+	_ = rcvS.SetOption(mangos.OptionMaxRecvSize, limit)
+	_ = sndS.SetOption(mangos.OptionMaxRecvSize, limit)
 	if rn == "sub" {
 		_ = rcv.SetOption(mangos.OptionSubscribe, []byte{})
 	}
 	if sn == "surveyor" {
+		_ = sndS.SetOption(mangos.OptionSurveyTime, 10*time.Second)
 		_ = snd.SetOption(mangos.OptionSurveyTime, 10*time.Second)
 	}
 	if sn == "req" {
+		_ = sndS.SetOption(mangos.OptionRetryTime, time.Duration(0))
 		_ = snd.SetOption(mangos.OptionRetryTime, time.Duration(0))
 	}
-	se, re := wire.Track(snd), wire.Track(rcv)
-	if _, err := wire.Connect(tr, rcv, snd, re, se); err != nil {
+	se, re := wire.Track(sndS), wire.Track(rcvS)
+	if _, err := wire.Connect(tr, rcvS, sndS, re, se); err != nil {
 		fw.note = "connect failed: " + err.Error()
 		return ret()
 	}
@@ -185,7 +224,7 @@ func runFlow(tr string, p pat, raw, big bool, limit int, r *rand.Rand) []*flow {
 		go func() {
 			defer wg.Done()
 			for _, m := range fw.msgs {
-				if err := sendOne(snd, raw, p.rawHdr, coqgen.GenBody(m.seed, m.n)); err != nil {
+				if err := sendOne(snd, raw, p.rawHdr, coqgen.GenBody(m.seed, m.n), held); err != nil {
 					fw.note = "send failed: " + err.Error()
 					return
 				}
@@ -194,10 +233,10 @@ func runFlow(tr string, p pat, raw, big bool, limit int, r *rand.Rand) []*flow {
 				}
 			}
 		}()
-		got, _ := recvN(rcv, len(in), 4*time.Second)
+		got, _ := recvN(rcv, len(in), 4*time.Second, held)
 		wg.Wait()
 		// the over-limit message must not arrive (on inproc there is no limit: it does)
-		extra, _ := recvN(rcv, 1, 400*time.Millisecond)
+		extra, _ := recvN(rcv, 1, 400*time.Millisecond, held)
 		fw.got = append(got, extra...)
 		return ret()
 	}
@@ -205,11 +244,11 @@ func runFlow(tr string, p pat, raw, big bool, limit int, r *rand.Rand) []*flow {
 	for i, n := range in {
 		m := mspec{uint64(r.Intn(256)), n}
 		fw.msgs = append(fw.msgs, m)
-		if err := sendOne(snd, raw, p.rawHdr, coqgen.GenBody(m.seed, m.n)); err != nil {
+		if err := sendOne(snd, raw, p.rawHdr, coqgen.GenBody(m.seed, m.n), held); err != nil {
 			fw.note = fmt.Sprintf("send %d failed: %v", i, err)
 			return ret()
 		}
-		got, err := recvN(rcv, 1, 4*time.Second)
+		got, err := recvN(rcv, 1, 4*time.Second, held)
 		fw.got = append(fw.got, got...)
 		if err != nil {
 			fw.note = fmt.Sprintf("request %d not received: %v", i, err)
@@ -222,11 +261,11 @@ func runFlow(tr string, p pat, raw, big bool, limit int, r *rand.Rand) []*flow {
 		if raw {
 			rh = got[0].hdr
 		}
-		if err := sendOne(rcv, raw, rh, coqgen.GenBody(rm.seed, rm.n)); err != nil {
+		if err := sendOne(rcv, raw, rh, coqgen.GenBody(rm.seed, rm.n), held); err != nil {
 			back.note = fmt.Sprintf("reply %d failed: %v", i, err)
 			return ret()
 		}
-		bg, err := recvN(snd, 1, 4*time.Second)
+		bg, err := recvN(snd, 1, 4*time.Second, held)
 		back.got = append(back.got, bg...)
 		if err != nil {
 			back.note = fmt.Sprintf("reply %d not received: %v", i, err)
@@ -236,8 +275,8 @@ func runFlow(tr string, p pat, raw, big bool, limit int, r *rand.Rand) []*flow {
 	// finally the over-limit request
 	m := mspec{uint64(r.Intn(256)), over}
 	fw.msgs = append(fw.msgs, m)
-	_ = sendOne(snd, raw, p.rawHdr, coqgen.GenBody(m.seed, m.n))
-	extra, _ := recvN(rcv, 1, 400*time.Millisecond)
+	_ = sendOne(snd, raw, p.rawHdr, coqgen.GenBody(m.seed, m.n), held)
+	extra, _ := recvN(rcv, 1, 400*time.Millisecond, held)
 	fw.got = append(fw.got, extra...)
 	return ret()
 }
@@ -259,15 +298,23 @@ func main() {
 		big   bool
 		limit int
 		seed  int64
+		held  int
 	}
 	var jobs []job
 	for _, tr := range wire.Transports {
 		for pi, p := range pats {
 			for _, raw := range []bool{false, true} {
-				jobs = append(jobs, job{tr, p, raw, false, 3000, r.Int63()})
+				jobs = append(jobs, job{tr, p, raw, false, 3000, r.Int63(), 0})
+				if !raw {
+					// byte-slice API, slices held to the end: on the sockets, and on contexts where there are any
+					jobs = append(jobs, job{tr, p, false, false, 3000, r.Int63(), 1})
+					if p.snd == "req" || p.snd == "surveyor" || p.rcv == "sub" {
+						jobs = append(jobs, job{tr, p, false, false, 3000, r.Int63(), 2})
+					}
+				}
 				// large sizes: one pattern per transport, and every pattern on tcp (quick); everything (thorough)
 				if thorough || (pi == 0 && !raw) || (tr == "tcp" && !raw) || (tr == "ipc" && raw && pi == 3) {
-					jobs = append(jobs, job{tr, p, raw, true, 70000, r.Int63()})
+					jobs = append(jobs, job{tr, p, raw, true, 70000, r.Int63(), 0})
 				}
 			}
 		}
@@ -275,8 +322,8 @@ func main() {
 	if thorough {
 		// the 1 MiB default limit, left untouched (limit value passed only to size selection)
 		for _, tr := range wire.Transports {
-			jobs = append(jobs, job{tr, pats[0], false, true, 1 << 20, r.Int63()})
-			jobs = append(jobs, job{tr, pats[3], false, true, 1 << 20, r.Int63()})
+			jobs = append(jobs, job{tr, pats[0], false, true, 1 << 20, r.Int63(), 0})
+			jobs = append(jobs, job{tr, pats[3], false, true, 1 << 20, r.Int63(), 0})
 		}
 	}
 	results := make([][]*flow, len(jobs))
@@ -288,7 +335,7 @@ func main() {
 			defer wg.Done()
 			sem <- struct{}{}
 			defer func() { <-sem }()
-			results[i] = runFlow(j.tr, j.p, j.raw, j.big, j.limit, rand.New(rand.NewSource(j.seed)))
+			results[i] = runFlow(j.tr, j.p, j.raw, j.big, j.limit, rand.New(rand.NewSource(j.seed)), j.held)
 		}(i, j)
 	}
 	wg.Wait()
